@@ -235,6 +235,20 @@ def case(ctx, kind, shape, axes, impl, hc, sign, dtype, box=None, shift=None, py
         ctx.fact('range-shape', op.range.shape == out_shape)
         if hc:
             ctx.fact('halfcomplex-length', out_shape[axes[-1]] == shape[axes[-1]] // 2 + 1)
+        # the reciprocal grid itself (documented): xi_k * s = -pi + pi (2k + [not shift]) / N, the first N//2+1 of
+        # them in the halved axis; untransformed axes keep the real-space coordinates
+        for pos, d in enumerate(axes):
+            N = shape[d]
+            want = [(-math.pi + math.pi * (2 * k + (0 if shift[pos] else 1)) / N) / stride[d] for k in range(N)]
+            if hc and d == axes[-1]:
+                want = want[:N // 2 + 1]
+            ctx.fact('reciprocal-grid/axis%d' % d, len(kgrid[d]) == len(want) and
+                     all(abs(a_ - b_) <= 1e-9 * (1 + abs(b_)) for a_, b_ in zip(kgrid[d], want)),
+                     'got %s expected %s' % (list(kgrid[d]), want))
+        for d in range(nd):
+            if d not in axes:
+                ctx.fact('untransformed-axis%d-keeps-its-coordinates' % d,
+                         np.allclose(kgrid[d], rgrid[d], rtol=0, atol=1e-12))
         ref = np.empty(out_shape, dtype=object)
         for k in np.ndindex(*out_shape):
             ranges = [range(shape[d]) if d in axes else [k[d]] for d in range(nd)]
